@@ -148,6 +148,19 @@ func (p *C08) Generate(seed uint64, run int) *Case {
 		}
 		c.Labels = append(c.Labels, "fault:F6:corrupt")
 	}
+	var bigChordFiles map[string]*simrt.FileSpec
+	if r.Chance(1, 25) && len(p.w.AttrNames) > 30 {
+		// a chord with more voices than any built-in one (polyphony limits)
+		n := 20 + r.Intn(25)
+		y := "- name: Cluster\n  meta:\n    display: cluster\n  attributes:\n"
+		perm := r.Perm(len(p.w.AttrNames))
+		for _, ai := range perm[:min(n, len(perm))] {
+			y += "    - " + p.w.AttrNames[ai] + "\n"
+		}
+		bigChordFiles = map[string]*simrt.FileSpec{"/sim/cluster.yml": {Data: []byte(y)}}
+		data = append(data, []byte("- chord:\n    degree: \"1\"\n    name: \"cluster\"\n    base: \"5\"\n  values:\n    - \"1\"\n- chord:\n    degree: \"4\"\n    name: \"cluster\"\n  values:\n    - \"1/2\"\n")...)
+		c.Labels = append(c.Labels, "cluster-chord")
+	}
 	tracks := model.Pick(r, c08Tracks)
 	switch {
 	case r.Chance(1, 40):
@@ -190,8 +203,19 @@ func (p *C08) Generate(seed uint64, run int) *Case {
 	if r.Chance(1, 8) {
 		argv = append(argv, "--meter", model.Pick(r, []string{"3/4", "6/8", "255/1", "256/4", "4/3", "1/128", "7/256", "4/65536"}))
 	}
+	if r.Chance(1, 4) {
+		// an option this tree has and the pinned commit has not
+		nb := Base{Argv: argv}
+		if name := p.w.WithNewFlag(r, &nb); name != "" {
+			argv = nb.Argv
+			c.Labels = append(c.Labels, "new-flag:"+name)
+		}
+	}
 	c.Params["tracks"] = fmt.Sprint(tracks)
-	st := Step{Step: simrt.Step{Argv: argv, Seed: r.U64(), Stdin: &simrt.Stream{Data: data}}, Note: "stdout"}
+	if bigChordFiles != nil {
+		argv = append(argv, "--chord", "/sim/cluster.yml")
+	}
+	st := Step{Step: simrt.Step{Argv: argv, Seed: r.U64(), Stdin: &simrt.Stream{Data: data}, Files: bigChordFiles}, Note: "stdout"}
 	if r.Chance(1, 4) {
 		st.Stdin.Plan = GenPlan(r)
 		st.MapPolicy = model.Pick(r, mapPolicies)
@@ -205,14 +229,14 @@ func (p *C08) Generate(seed uint64, run int) *Case {
 		st2 := st
 		st2.Argv = append(append([]string{}, argv...), "-o", outPath)
 		st2.Note = "outfile"
+		st2.Files = cloneFiles(st.Files)
 		switch r.Intn(4) {
 		case 0, 1:
-			st2.Files = nil
 			withExistingOutput(r, &st2)
 		case 2:
-			st2.Files = map[string]*simrt.FileSpec{outPath: {RenameErr: "EXDEV"}}
+			st2.Files[outPath] = &simrt.FileSpec{RenameErr: "EXDEV"}
 		case 3:
-			st2.Files = map[string]*simrt.FileSpec{outPath: {Pipe: true}}
+			st2.Files[outPath] = &simrt.FileSpec{Pipe: true}
 		}
 		c.Steps = append(c.Steps, st2)
 	}
